@@ -99,9 +99,10 @@ PROPS.update({
               "Floating-point numpy code is outside the deductive engine. The closed forms are executed on arrays of sympy symbols and compared as polynomials with the brute-force sums "
               "over all possible hyperedges: valid for all real u, w but only for the enumerated shapes (N <= 4 quick / 6 thorough, K <= 3). fit() is checked on a grid of hypergraphs, seeds, "
               "K, priors and n_iter.", "DESIGN.md §7 C15"),
-    "C16": _b("contract-based deductive verification (AST->VC, z3) of the pairwise-reshuffle kernel for every outcome of rng.choice + bounded run-time contract checking of the sampler's "
-              "outputs over configurations, burn-in/thinning lengths and seeds",
-              "numpy Generator / iterator code: bounded exploration. Every sampled hypergraph is checked for the statement's clauses; the conditioning clauses on all initial hypergraphs of a "
+    "C16": _b("contract-based deductive verification (AST->VC, z3) of the pairwise-reshuffle kernel for every outcome of rng.choice and of the degree table _deg_seq_to_dict + bounded run-time contract "
+              "checking of the sampler's outputs over configurations, burn-in/thinning lengths and seeds",
+              "The kernel preserves both sizes, the union and the intersection of the two hyperedges for every draw; the degree table maps each occurring degree to exactly the nodes having it. "
+              "The rest is numpy Generator / iterator code: bounded exploration. Every sampled hypergraph is checked for the statement's clauses; the conditioning clauses on all initial hypergraphs of a "
               "small scope and on random degree/size sequences; same seed => same sequence.", "DESIGN.md §7 C16"),
     "C17": _b("bounded run-time contract checking of HypergraphMT.fit / HySC.fit outputs (shapes, ranges, isolated rows, bookkeeping, ascent, agreement with the definition, reproducibility)",
               "Floating-point EM and k-means on numpy/scipy/sklearn objects: no contract within reach of the deductive engine. After the repair of the SciPy incompatibility the models "
